@@ -28,7 +28,10 @@ _CMP = {
     ast.In: lambda a, b: a in b, ast.NotIn: lambda a, b: a not in b,
 }
 _BIN = {ast.Add: operator.add, ast.Sub: operator.sub, ast.Mult: operator.mul, ast.FloorDiv: operator.floordiv,
-        ast.Mod: operator.mod, ast.BitAnd: operator.and_, ast.BitOr: operator.or_, ast.BitXor: operator.xor}
+        ast.Mod: operator.mod, ast.BitAnd: operator.and_, ast.BitOr: operator.or_, ast.BitXor: operator.xor,
+        ast.LShift: lambda a, b: a << b if isinstance(b, int) and 0 <= b <= 64 else UNKNOWN,
+        ast.RShift: lambda a, b: a >> b if isinstance(b, int) and 0 <= b <= 64 else UNKNOWN,
+        ast.Pow: lambda a, b: a ** b if isinstance(b, int) and 0 <= b <= 64 else UNKNOWN}
 
 
 class Evaluator:
@@ -119,6 +122,11 @@ class Evaluator:
                 return {"len": len, "int": int, "bool": bool, "min": min, "max": max, "abs": abs}[e.func.id](*vals)
             except Exception:
                 return UNKNOWN
+        if isinstance(e, ast.Call) and isinstance(e.func, ast.Attribute) and e.func.attr in ("bit_length", "bit_count") and not e.args:
+            v = self.ev(e.func.value, depth)
+            if isinstance(v, int) and not isinstance(v, bool):
+                return v.bit_length() if e.func.attr == "bit_length" else bin(v).count("1")
+            return UNKNOWN
         return UNKNOWN
 
 
